@@ -167,6 +167,7 @@ type deferRec struct {
 	args []Term
 	pos  token.Pos
 	env  Env
+	snap map[types.Object]*Var
 }
 
 type tr struct {
